@@ -19,6 +19,7 @@ From Coquelicot Require Import Complex.
 From OV Require Import Base.Panic Base.Arith gen.Params Model.Roots Proofs.RootsRound Proofs.RootsRoundEx.
 Import ListNotations.
 Local Open Scope R_scope.
+Import RRN.
 
 (* ---------------------------------------------------------------- the principal square root near 1 *)
 Lemma Csqrt_re_nonneg (z : C) : 0 <= fst (Csqrt z).
